@@ -140,6 +140,26 @@ func runC09Child(a childArgs) error {
 			}
 		}(i)
 	}
+	// one more client keeps asking for the shard's size and point count (what every insert request does per shard)
+	wg.Add(1)
+	go func() {
+		defer wg.Done()
+		for {
+			select {
+			case <-stop:
+				return
+			default:
+			}
+			if _, err := env.sh.Info(); err != nil {
+				mu.Lock()
+				if len(errTexts) < 20 {
+					errTexts = append(errTexts, "Info: "+err.Error())
+				}
+				mu.Unlock()
+			}
+			time.Sleep(200 * time.Microsecond)
+		}
+	}()
 	var werr error
 	for step := 1; step <= nbatches; step++ {
 		if err := apply(step); err != nil {
